@@ -190,6 +190,7 @@ def run(prop, tier):
     print("timing: validation %.1fs (%d events, %d JVMs)" % (time.time() - t1, val["events"], val["jvms"]))
     byid = dict((t["id"], t) for t in traces + mutants)
     verdict = lib.Verdict(prop, tier)
+    verdict.t0 = t0                      # wall time of the whole run, not only of the verdict step
     mut_rejected = set()
     for rj in val["rejected"]:
         t = byid[rj["id"]]
@@ -293,3 +294,32 @@ def selftest_traces(lay):
     variant("cmd", "DenyRespected", 1, lambda e: e[0]["items"][0].update(acc=True))
     variant("symbolic", "DenyRespected", 1, lambda e: e[1]["items"][0].update(acc=True))
     return out
+
+
+def replay(prop, path):
+    """Re-execute a recorded violation against the current tree and re-validate it."""
+    with open(path) as f:
+        rec = json.load(f)
+    rp = rec["replay"]
+    ev = rp["event"]
+    payload = dict(base=os.path.join(lib.subdir("c06fs"), "replay"), seed=lib.seed(), vias=VIAS,
+                   saveas=["none", "file", "dir"], layouts=[], deny=[])
+    if ev["ev"] == "collect":
+        payload["deny"] = [dict(id="replay", factory=ev["factory"], comp=ev["comp"], files=ev["files"],
+                                commands=ev["commands"], comps=ev["comps"],
+                                items=[dict(t=i["t"], w=i["w"]) for i in ev["items"]])]
+    else:
+        p = list(ev["path"])
+        if p and p[-1] == "*":
+            p[-1] = "nx"
+        lay = rp["layout"]
+        payload["layouts"] = [dict(id="replay", fs=lay["fs"], root=lay["root"], out=lay["out"], paths=[p], allvias=True)]
+    out = lib.run_driver("drive_collect.py", payload)
+    val = lib.validate_traces("CollectTrace", "CollectTrace.cfg", out["traces"], jobs=1)
+    print("replay of %s (%s)" % (path, rec["signature"]))
+    byid = dict((t["id"], t) for t in out["traces"])
+    for rj in val["rejected"]:
+        print("  rejected: clause %s; event %s" % (rj["clause"], json.dumps(byid[rj["id"]]["events"][rj["line"] - 1])[:500]))
+    same = any(lib.sig(prop, rj["clause"]) == rec["signature"] for rj in val["rejected"])
+    print("  %s" % ("REPRODUCED" if same else "not reproduced on the current tree"))
+    return 1 if same else 0
